@@ -16,7 +16,10 @@ EXTENDS Integers, Sequences, FiniteSets, TLC, Json
 
 CONSTANTS Model, Req, ModelOf, OptOf, KeepOf, MaxRunners, MaxRunnerIds, QueueCap,
           DefaultKeep, AllowExplicitUnload, AllowPingFail, AllowLoadFail,
-          FixRecheckOnUse, FixIdentityDelete, FixLockOrder, MaxHist
+          FixRecheckOnUse, FixIdentityDelete, FixLockOrder, MaxHist,
+          CallerLeavesOnCancel   \* FALSE = the code: scheduleRunner (routes.go) waits for the scheduler's reply whatever happens to
+                                 \* its context.  TRUE: it returns when the context is done -- then nobody receives on the
+                                 \* unbuffered successCh and useLoadedRunner blocks in its send, holding the runner's refMu
 
 None == "none"
 NoR == 0   \* "no runner"
@@ -149,15 +152,20 @@ PUse ==
   /\ ppc = "use" /\ refMu[pvictim] = "free"
   /\ IF FixRecheckOnUse /\ ~run[pvictim].alive
        THEN /\ ppc' = "decide" /\ pvictim' = NoR
-            /\ UNCHANGED <<run, rq, preq, viol>>
+            /\ UNCHANGED <<run, rq, preq, viol, refMu>>
+       ELSE IF CallerLeavesOnCancel /\ rq[preq].ctx = "done"
+       THEN \* the send on successCh never completes: processPending stays here with refMu held
+            /\ ppc' = "sendblocked" /\ refMu' = [refMu EXCEPT ![pvictim] = "P"]
+            /\ run' = [run EXCEPT ![pvictim].ref = @ + 1, ![pvictim].timer = IF @ = "armed" THEN "none" ELSE @]
+            /\ UNCHANGED <<rq, preq, pvictim, viol>>
        ELSE /\ LET r == pvictim q == preq IN
                  /\ run' = [run EXCEPT ![r].ref = @ + 1,
                                        ![r].timer = IF @ = "armed" THEN "none" ELSE @,
                                        ![r].dur = KeepFor(q, @)]
                  /\ rq' = [rq EXCEPT ![q].st = "granted", ![q].replies = @ + 1, ![q].got = r, ![q].fin = "armed"]
-            /\ ppc' = "idle" /\ preq' = None /\ pvictim' = NoR
+            /\ ppc' = "idle" /\ preq' = None /\ pvictim' = NoR /\ UNCHANGED refMu
             /\ viol' = IF run[pvictim].alive THEN viol ELSE viol \cup {"grant_dead"}
-  /\ UNCHANGED <<pendingQ, finishedQ, expiredQ, unloadedN, loaded, nextId, refMu, loadedMu, ptodo,
+  /\ UNCHANGED <<pendingQ, finishedQ, expiredQ, unloadedN, loaded, nextId, loadedMu, ptodo,
                  cpc, crun, xpc, xmodel, xrun, requeue, closes>>
 
 \* fit decision: with other models loaded, updateFreeSpace walks the table.  Pinned code: holds
